@@ -179,6 +179,8 @@ def check_series(ctx, VG, x, t, horizontal, missing, cid, relations=True):
         if ok1 and ok2:
             rr = np.zeros(n)
             aa = np.zeros(n)
+            R = np.asarray(R).astype(int).tolist()     # Python integers
+            R = np.array(R, dtype=object)
             for i in range(n):
                 p = [j for j in range(i) if R[i, j]]
                 f = [j for j in range(i + 1, n) if R[i, j]]
@@ -244,6 +246,28 @@ def run(ctx):
                           f"{mask}:{int(hz)}"
                     if ctx.want(cid):
                         check_series(ctx, VG, x, None, hz, True, cid)
+    # 2b. long series with hubs: nodes with more than 127 / 255 neighbours
+    # in their past or future (degree counters of narrow integer type)
+    sizes = (140, 200, 270) if ctx.thorough else (140,)
+    j = 0
+    for n in sizes:
+        c = n // 3
+        shapes = {
+            "parabola": [float((i - c) ** 2) for i in range(n)],
+            "hub-first": [float(4 * n)] + [float(i) for i in range(n - 1)],
+            "hub-last": [float(n - 2 - i) for i in range(n - 1)]
+            + [float(4 * n)],
+            "hub-middle": [float(i) for i in range(c)] + [float(4 * n)]
+            + [float(n - i) for i in range(c + 1, n)],
+        }
+        for name, x in shapes.items():
+            for hz in (False, True):
+                j += 1
+                cid = f"long:{n}:{name}:{int(hz)}"
+                if ctx.mine(j) and ctx.want(cid):
+                    with ctx.guard(300):
+                        check_series(ctx, VG, x, None, hz, False, cid)
+                    ctx.count("long_hub_series")
     # 3. random
     k = 0
     while ctx.time_left() > 0 and k < (60000 if ctx.thorough else 400):
